@@ -57,14 +57,15 @@ type txSpec struct {
 	Damage      []txDamage        `json:"damage,omitempty"`
 	DamageAfter int               `json:"damage_after_run,omitempty"`
 	// sender knobs left at their defaults when zero
-	SmallThr    int64   `json:"small_threshold,omitempty"`
-	MediumThr   int64   `json:"medium_threshold,omitempty"`
-	SmallFrac   float64 `json:"small_slot_frac,omitempty"`
-	AgingMs     int     `json:"aging_after_ms,omitempty"`
-	Tail        uint32  `json:"resume_verify_tail,omitempty"`
-	SlowHashMs  int     `json:"receiver_hash_read_takes_ms,omitempty"`   // slow disk under the receiver's verification hash
-	SlowWriteMs int     `json:"receiver_chunk_write_takes_ms,omitempty"` // ... and under its chunk writes: the transfer spans simulated time
-	EnumFault   bool    `json:"enumerate_fault_position,omitempty"`
+	SmallThr    int64    `json:"small_threshold,omitempty"`
+	MediumThr   int64    `json:"medium_threshold,omitempty"`
+	SmallFrac   float64  `json:"small_slot_frac,omitempty"`
+	AgingMs     int      `json:"aging_after_ms,omitempty"`
+	Tail        uint32   `json:"resume_verify_tail,omitempty"`
+	SlowHashMs  int      `json:"receiver_hash_read_takes_ms,omitempty"`   // slow disk under the receiver's verification hash
+	ChunkVary   []uint32 `json:"chunk_size_per_file,omitempty"`           // the sender's ParamSource hands these out in turn (one call per file start)
+	SlowWriteMs int      `json:"receiver_chunk_write_takes_ms,omitempty"` // ... and under its chunk writes: the transfer spans simulated time
+	EnumFault   bool     `json:"enumerate_fault_position,omitempty"`
 }
 
 // txLink is one interrupted run of a history.
@@ -436,6 +437,18 @@ func runEpisode(cfg epCfg) (ep *epResult) {
 			sOpts := Options{ChunkSize: sp.Chunk, ParallelFiles: sp.Streams, Resume: sp.ResumeS, HashAlg: sp.Hash, ResolveFilePath: resolver, StripeMax: nconns,
 				SmallThreshold: sp.SmallThr, MediumThreshold: sp.MediumThr, SmallSlotFrac: sp.SmallFrac, AgingAfter: time.Duration(sp.AgingMs) * time.Millisecond, ResumeVerifyTail: sp.Tail}
 			rOpts := Options{Resume: sp.ResumeR, NoRootDir: sp.NoRoot, HashAlg: sp.Hash, ParallelFiles: sp.RecvStreams}
+			if len(sp.ChunkVary) > 0 {
+				// runtime parameters: the chunk size is read again at every file start
+				var pmu sync.Mutex
+				calls := 0
+				sOpts.ParamSource = func() RuntimeParams {
+					pmu.Lock()
+					defer pmu.Unlock()
+					cs := sp.ChunkVary[calls%len(sp.ChunkVary)]
+					calls++
+					return RuntimeParams{ChunkSize: cs, ParallelFiles: sp.Streams}
+				}
+			}
 			if sp.Delta {
 				var sink atomic.Int64
 				sOpts.ProgressDeltaFn = func(string, int64) { sink.Add(1) }
@@ -570,7 +583,7 @@ func closeAction(d *verifsim.Delivery, side []*verifsim.NConn) verifsim.Action {
 
 // ---------- spec generation ----------
 
-var nameClasses = []string{"plain", "plain", "plain", "space", "unicode", "dot", "dotdot", "digit", "long", "backslash", "plain", "plain", "plain", "space", "unicode", "dot", "dotdot", "digit", "long", "backslash", "latin1"}
+var nameClasses = []string{"plain", "plain", "plain", "space", "unicode", "dot", "dotdot", "digit", "long", "backslash", "plain", "plain", "plain", "space", "unicode", "dot", "dotdot", "digit", "long", "backslash", "latin1", "dotlead", "dotlead"}
 
 func genName(r *verifsim.SplitMix, i int) string {
 	switch nameClasses[r.Intn(len(nameClasses))] {
@@ -582,6 +595,9 @@ func genName(r *verifsim.SplitMix, i int) string {
 		return fmt.Sprintf(".hidden%d", i)
 	case "dotdot":
 		return fmt.Sprintf("a..b%d", i)
+	case "dotlead":
+		// begins with two dots without being the parent reference
+		return fmt.Sprintf([]string{"..a%d.txt", "...%d", "..cache%d", "....%d"}[r.Intn(4)], i)
 	case "digit":
 		return fmt.Sprintf("%d_x", i+1)
 	case "long":
@@ -600,7 +616,7 @@ func genTree(r *verifsim.SplitMix, sp *txSpec, maxFiles int, plainNames bool) {
 	nf := r.Intn(maxFiles + 1)
 	c := int(sp.Chunk)
 	sizes := []int{0, 1, c - 1, c, c + 1, 2 * c, 2*c + 1, 3 * c, 5*c - 1, 8 * c}
-	dirs := []string{"", "", "sub", "sub/deep", "other dir", "sub/deep/er/still"}
+	dirs := []string{"", "", "sub", "sub/deep", "other dir", "sub/deep/er/still", "...", "sub/..cfg"}
 	seen := map[string]bool{}
 	for i := 0; i < nf; i++ {
 		n := sizes[r.Intn(len(sizes))]
@@ -662,7 +678,8 @@ func genTree(r *verifsim.SplitMix, sp *txSpec, maxFiles int, plainNames bool) {
 			cut = i
 		}
 		d := p[:cut]
-		if d != "" && !strings.HasSuffix(d, "/") && !seen[d] && !strings.HasSuffix(d, " ") {
+		last := d[strings.LastIndexByte(d, '/')+1:]
+		if d != "" && !strings.HasSuffix(d, "/") && !seen[d] && !strings.HasSuffix(d, " ") && last != "." && last != ".." {
 			ok := true
 			for _, f := range sp.Files {
 				if f.P == d || strings.HasPrefix(f.P, d+"/") {
@@ -813,6 +830,13 @@ func (h txHarness) Gen(r *verifsim.SplitMix, tier string, idx int) any {
 					sp.Streams = 1 + r.Intn(3)
 				}
 			}
+		}
+	}
+	if len(sp.Damage) == 0 && sp.Chunk >= 64 && r.Chance(1, 8) {
+		// the chunk size changes from file to file (the engine asks its ParamSource at every file start)
+		pool := []uint32{64, 512, 1000, 1024, 4096, 16384}
+		for i := 0; i < 2+r.Intn(2); i++ {
+			sp.ChunkVary = append(sp.ChunkVary, pool[r.Intn(len(pool))])
 		}
 	}
 	return sp
